@@ -21,12 +21,12 @@ func storeValue(gid, k uint32) uint32 { return gid ^ k }
 
 // buildStoreKernel assembles
 //
-//	gid = wgid.x*wg + tid.x; if gid < N { out[gid] = gid ^ K }
+//	gid = wgid.x*wg + tid.x; if gid < N { out[gid << shift] = gid ^ K }
 //
 // as GCN3 machine code (dword flat stores: the only store width both the
 // emulator and the timing model implement). wait adds s_waitcnt vmcnt(0)
 // before s_endpgm.
-func buildStoreKernel(wg int, wait bool) *insts.KernelCodeObject {
+func buildStoreKernel(wg int, wait bool, shift int) *insts.KernelCodeObject {
 	a := kasm.New()
 	const (
 		sKernarg = 0
@@ -51,7 +51,7 @@ func buildStoreKernel(wg int, wait bool) *insts.KernelCodeObject {
 	a.SOP1(kasm.OpSAndSaveexecB64, kasm.S(sSave), kasm.VCC)
 	a.Branch(kasm.OpSCbranchExecz, "end")
 	a.VOP2(kasm.OpVXorB32, kasm.V(vVal), kasm.S(sK), kasm.V(vGID))
-	a.VOP2(kasm.OpVLshlrevB32, kasm.V(vOff), kasm.Imm(2), kasm.V(vGID))
+	a.VOP2(kasm.OpVLshlrevB32, kasm.V(vOff), kasm.Imm(int32(2+shift)), kasm.V(vGID))
 	a.VOP2(kasm.OpVAddU32, kasm.V(vAddr), kasm.S(sOut), kasm.V(vOff))
 	a.VOP1(kasm.OpVMovB32, kasm.V(vAddr+1), kasm.S(sOut+1))
 	a.VOP2(kasm.OpVAddcU32, kasm.V(vAddr+1), kasm.Imm(0), kasm.V(vAddr+1))
